@@ -122,6 +122,10 @@ pub enum Op {
     /// replay of an intact tuple with an over-long context: kind 0 appends 256 zero bytes (same length
     /// modulo 256), kind 1 appends 512 bytes, kind 2 replaces the context by 256 bytes, kind 3 by 257
     DeliverLongCtx { t: usize, kind: u8 },
+    /// the key owner signs, through the deprecated internal interface, the formatted input
+    /// dom || (len mod 256) || ctx || [OID || PH(M)] || [M] for a context of `ctx_len` > 255 bytes
+    /// (a "signature made over the wrapped length byte"); it is delivered at once with that context
+    SignWrapped { sk: usize, msg: Vec<u8>, ctx_len: usize, mode: Mode, rnd: [u8; 32] },
 }
 
 impl Op {
@@ -141,6 +145,7 @@ impl Op {
             Op::DeliverReframed { .. } => "deliver_reframed",
             Op::DeliverCross { .. } => "deliver_cross_protocol",
             Op::DeliverLongCtx { .. } => "deliver_overlong_context",
+            Op::SignWrapped { .. } => "sign_over_wrapped_length_byte",
         }
     }
     fn to_json(&self) -> Value {
@@ -160,6 +165,7 @@ impl Op {
             Op::DeliverReframed { t, split } => json!({"op":"deliver_reframed","tuple":t,"split":split}),
             Op::DeliverCross { t } => json!({"op":"deliver_cross_protocol","tuple":t}),
             Op::DeliverLongCtx { t, kind } => json!({"op":"deliver_overlong_context","tuple":t,"kind":kind}),
+            Op::SignWrapped { sk, msg, ctx_len, mode, rnd } => json!({"op":"sign_over_wrapped_length_byte","sk":sk,"msg":hx(msg),"ctx_len":ctx_len,"mode":mode.name(),"rnd":hx(rnd)}),
         }
     }
     fn from_json(v: &Value) -> Option<Op> {
@@ -180,6 +186,7 @@ impl Op {
             "deliver_reframed" => Op::DeliverReframed { t: u("tuple")?, split: u("split")? },
             "deliver_cross_protocol" => Op::DeliverCross { t: u("tuple")? },
             "deliver_overlong_context" => Op::DeliverLongCtx { t: u("tuple")?, kind: v["kind"].as_u64()? as u8 },
+            "sign_over_wrapped_length_byte" => Op::SignWrapped { sk: u("sk")?, msg: unhx(&v["msg"]), ctx_len: u("ctx_len")?, mode: Mode::from_name(v["mode"].as_str()?)?, rnd: unhx32(&v["rnd"]) },
             _ => return None,
         })
     }
@@ -492,6 +499,28 @@ pub fn execute(set: &dyn DynSet, xi: &[u8; 32], xi_other: &[u8; 32], ops: &[Op],
                 let s = &sks[src % sks.len()];
                 let _ = guard!(i, "PrivateKey::into_bytes", s.obj.to_bytes());
             }
+            Op::SignWrapped { sk, msg, ctx_len, mode, rnd } => {
+                let s = &sks[sk % sks.len()];
+                let honest = s.honest;
+                let cl = (*ctx_len).max(256);
+                let ctx: Vec<u8> = (0..cl).map(|j| (j as u8).wrapping_mul(31).wrapping_add(7)).collect();
+                let mut mp = vec![u8::from(*mode != Mode::Pure), (cl % 256) as u8];
+                mp.extend_from_slice(&ctx);
+                match formatted_prehash(*mode, msg) {
+                    Some(f) => mp.extend_from_slice(&f),
+                    None => mp.extend_from_slice(msg),
+                }
+                let Some(Ok(sig)) = guard!(i, "_internal_sign", s.obj.sign_internal(&mp, *rnd)) else { continue };
+                bump(&mut st.faults_fired, "channel/signature_over_wrapped_length_byte");
+                for p in pks.iter() {
+                    st.verifies += 1;
+                    let Some(dec) = guard!(i, "verify", p.obj.verify(msg, &sig, &ctx, *mode)) else { continue };
+                    st.sigs.insert(format!("{}|wrapped_len|{}|{}|{}", info.name, mode.name(), if p.honest && honest { "honest" } else { "tainted" }, dec));
+                    if dec {
+                        finds.push(Finding { prop: "C07", invariant: "verifier-accepts-overlong-context".into(), at_op: i, observed: format!("verification ({}) with a {cl}-byte context returned true for a signature the key owner made over the wrapped length byte (replica `{}`)", mode.name(), p.prov), expected: "verification returns false".into() });
+                    }
+                }
+            }
             Op::DeliverAs { .. } | Op::DeliverReframed { .. } | Op::DeliverCross { .. } | Op::DeliverLongCtx { .. } => {
                 if tuples.is_empty() {
                     continue;
@@ -689,6 +718,10 @@ pub fn gen_history(p: &mut Prng, set: &dyn DynSet) -> Vec<Op> {
         // misrouting and framing faults of the channel (every run: they cost one verification each)
         let op = match p.below(12) {
             3 => Op::DeliverLongCtx { t: p.usize_below(8), kind: p.below(4) as u8 },
+            5 if p.chance(2, 3) => {
+                let ml = *p.pick(&MSG_LENS[..8]);
+                Op::SignWrapped { sk: p.usize_below(8), msg: p.bytes(ml), ctx_len: *p.pick(&[256usize, 257, 258, 300, 511, 512, 1000, 65_539]), mode: *p.pick(&MODES), rnd: p.array32() }
+            }
             4 if p.chance(1, 2) => {
                 let cl = *p.pick(&[256usize, 257, 300, 511, 512, 1000, 65_791]);
                 let ml = *p.pick(&MSG_LENS[..8]);
@@ -731,6 +764,25 @@ pub fn gen_short_history(p: &mut Prng, set: &dyn DynSet) -> Vec<Op> {
     ops
 }
 
+/// C06 stratum: a ladder of message sizes (2^k + 1 bytes, 64 KiB .. 1 MiB) signed in two modes and
+/// misrouted to every other endpoint - a size-triggered unification of two modes' formatting shows only there.
+pub fn gen_size_ladder(p: &mut Prng) -> Vec<Op> {
+    let mut ops = Vec::new();
+    for k in [16u32, 18, 20] {
+        let ml = (1usize << k) + 1;
+        let msg = p.bytes(ml);
+        for mode in [Mode::Pure, *p.pick(&MODES[1..])] {
+            ops.push(Op::Sign { sk: 0, msg: msg.clone(), ctx: p.bytes(3), mode, rnd: p.array32(), via_os: false });
+            let t = ops.iter().filter(|o| matches!(o, Op::Sign { .. })).count() - 1;
+            for m2 in MODES {
+                ops.push(Op::DeliverAs { t, mode: m2 });
+            }
+            ops.push(Op::DeliverCross { t });
+        }
+    }
+    ops
+}
+
 struct RunOut {
     stats: Stats,
     viols: Vec<Violation>,
@@ -766,19 +818,21 @@ pub fn run(ctx: &Ctx) -> i32 {
     let n_short: u64 = if matches!(prop, "C09" | "C11" | "C13") {
         match ctx.tier {
             // C11: defects confined to ~1 key in 10^4 (a coefficient of t landing exactly on q) need volume
-            Tier::Quick => ctx.scaled(if prop == "C11" { 45_000 } else { 15_000 }),
+            Tier::Quick => ctx.scaled(match prop { "C11" => 45_000, "C13" => 30_000, _ => 15_000 }),
             Tier::Thorough => ctx.scaled(if prop == "C11" { 600_000 } else { 300_000 }),
         }
     } else {
         0
     };
-    let outs = run_indexed((n + n_short) as usize, ctx.workers, |i| {
-        let short = (i as u64) >= n;
-        let mut p = Prng::for_run(ctx.seed, if short { "world-short" } else { "world" }, i as u64);
+    let n_ladder: u64 = if prop == "C06" { match ctx.tier { Tier::Quick => 6, Tier::Thorough => 60 } } else { 0 };
+    let outs = run_indexed((n + n_short + n_ladder) as usize, ctx.workers, |i| {
+        let short = (i as u64) >= n && (i as u64) < n + n_short;
+        let ladder = (i as u64) >= n + n_short;
+        let mut p = Prng::for_run(ctx.seed, if ladder { "world-ladder" } else if short { "world-short" } else { "world" }, i as u64);
         let set = all[i % all.len()];
         let xi = p.array32();
         let xi_other = p.array32();
-        let ops = if short { gen_short_history(&mut p, set) } else { gen_history(&mut p, set) };
+        let ops = if ladder { gen_size_ladder(&mut p) } else if short { gen_short_history(&mut p, set) } else { gen_history(&mut p, set) };
         let mut stats = Stats::default();
         let mut out = RunOut { stats: Stats::default(), viols: Vec::new(), harness: None, sample: None, digest: 0 };
         match execute(set, &xi, &xi_other, &ops, &mut stats) {
@@ -864,7 +918,7 @@ pub fn run(ctx: &Ctx) -> i32 {
         samples,
         exhaustive: false,
         extra: json!({
-            "histories": n, "short_histories": n_short, "runs": n + n_short,
+            "histories": n, "short_histories": n_short, "size_ladder_histories": n_ladder, "runs": n + n_short + n_ladder,
             "runs_per_hour": if wall > 0.0 { (n as f64 / wall * 3600.0) as u64 } else { 0 },
             "operations": tot.ops, "signatures_made": tot.signs, "verifications": tot.verifies,
             "loads_from_store": tot.loads, "loads_rejected": tot.rejected_loads, "restarts": tot.restarts,
